@@ -1128,6 +1128,7 @@ def r13p(F):
                    floor=32, exhaustive=True)
     for enum, fnm in (("Expression", "render_expr"), ("Statement", "render_stmt"), ("Value", "render_value")):
         for v, (sents, ln, runs, unknown, bound, underflows) in sorted(arm_sentences(F, fnm).items()):
+            need(not unknown or underflows, "%s::%s: the printer arm uses constructs the interpreter does not model: %s" % (enum, v, unknown))
             ok = not underflows and not unknown
             r.inst("%s::%s" % (enum, v), "src/ast/printer/mod.rs:%d" % ln, ok,
                    "balance stays >= 0 on all %d explored paths" % runs if ok else
